@@ -102,10 +102,20 @@ pub fn run_fuzz_stage(
     // libFuzzer: seed 0 means random - remap
     let fseed = (seed % 0x7fff_fffe) + 1;
     let artifact_prefix = format!("{}/", artifacts.display());
-    let out = Command::new("cargo")
-        .args(["+nightly", "fuzz", "run", target])
+    // run the instrumented binary directly (cargo-fuzz's own `run` needs the crate directory as cwd,
+    // and libFuzzer writes the per-job logs to its cwd)
+    // (the harness's cargo configuration puts all build output under <root>/target)
+    let mut binary = root.join("target/x86_64-unknown-linux-gnu/release").join(target);
+    if !binary.exists() {
+        binary = harness.join("fuzz/target/x86_64-unknown-linux-gnu/release").join(target);
+    }
+    if !binary.exists() {
+        stats.stages.insert(format!("fuzz:{target}"), json!({"skipped": "fuzz binary not found after the build"}));
+        println!("note: libFuzzer stage for {target} skipped (binary not found); the other stages decide");
+        return None;
+    }
+    let out = Command::new(&binary)
         .arg(&corpus)
-        .arg("--")
         .args([
             format!("-seed={fseed}"),
             format!("-runs={runs_per_job}"),
@@ -118,7 +128,6 @@ pub fn run_fuzz_stage(
             "-timeout=60".to_string(),
         ])
         .current_dir(&logs)
-        .env("CARGO_NET_OFFLINE", "true")
         .output();
     let out = match out {
         Ok(o) => o,
@@ -133,11 +142,15 @@ pub fn run_fuzz_stage(
         .map(|r| r.flatten().map(|e| e.path()).collect())
         .unwrap_or_default();
     log_files.sort();
-    let mut texts = vec![String::from_utf8_lossy(&out.stderr).to_string()];
+    let mut texts = vec![];
     for f in &log_files {
         if let Ok(t) = std::fs::read_to_string(f) {
             texts.push(t);
         }
+    }
+    if texts.is_empty() {
+        // single-process campaign: the statistics are on stderr
+        texts.push(String::from_utf8_lossy(&out.stderr).to_string());
     }
     for t in &texts {
         for line in t.lines() {
